@@ -272,6 +272,32 @@ def context_case(_):
                 out["violations"].append(("context|nested|hash-differs|%s" % lvl, "%s(1) beneath ctop under context %s: key %s, documented %s"
                                           % (lvl, n, got and got[:12], want[:12]), {"context": n}))
                 break
+    # values outside the supported argument types are refused before anything runs or is stored (never hashed like a
+    # look-alike supported value)
+    import numpy as np
+
+    for label, bad_value in (("tuple", (1, 2)), ("set", {1}), ("bytes", b"x"), ("ndarray", np.array([1])), ("object", object()),
+                             ("list-with-tuple", [1, (2,)]), ("dict-with-bytes", {"k": b"x"}), ("complex", 1j)):
+        for how in ("positional", "keyword", "partial", "context"):
+            audit.bodies_reset()
+            try:
+                if how == "positional":
+                    fx.f1(bad_value)
+                elif how == "keyword":
+                    fx.f1(a=bad_value)
+                elif how == "partial":
+                    fx.f1.partial(bad_value)()
+                else:
+                    fx.f1.with_context_args({"k": bad_value})(77)
+                outcome_ = "accepted"
+            except Exception as e:
+                outcome_ = type(e).__name__
+            out["evaluations"] += 1
+            out["transitions"] += 1
+            if outcome_ == "accepted" or audit.bodies():
+                out["violations"].append(("unsupported-argument|%s|%s|%s" % (label, how, "body-ran" if audit.bodies() else "accepted"),
+                                          "f1 called with an unsupported %s value (%s): %s, bodies run: %d" % (label, how, outcome_, len(audit.bodies())), {"context": label}))
+                break
     # the batch form under context arguments: same identity as the single call
     setup_store()
     for n, c in (("{k:1}", {"k": 1}), ("{k:2}", {"k": 2})):
